@@ -90,7 +90,7 @@ fn inc_history<const R: usize>(key: &[u8], nonce: &[u8], steps: &[&str]) -> Vec<
                 let d = expand(p[1]);
                 let ol = if p.len() > 2 { usz(p[2]) } else { d.len() };
                 step(&mut out, || {
-                    let mut o = vec![0u8; ol];
+                    let mut o = dirty(ol);
                     match &mut st {
                         Inc::Enc(c) => c.encrypt(&d, &mut o),
                         Inc::Dec(c) => c.decrypt(&d, &mut o),
@@ -142,8 +142,8 @@ pub fn run(op: &str, a: &[&str]) -> Vec<String> {
             let (key, nonce, aad, pt) = (expand(a[1]), expand(a[2]), expand(a[3]), expand(a[4]));
             let ol = if a.len() > 5 { usz(a[5]) } else { pt.len() };
             let tl = if a.len() > 6 { usz(a[6]) } else { 16 };
-            let mut o = vec![0u8; ol];
-            let mut t = vec![0u8; tl];
+            let mut o = dirty(ol);
+            let mut t = dirty(tl);
             macro_rules! mk { ($r:literal) => { ChaChaPoly1305::<$r>::new(&key, nonce12(&nonce), &aad).encrypt(&pt, &mut o, &mut t) }; }
             by_rounds!(usz(a[0]), mk);
             vec![hex(&o), hex(&t)]
@@ -152,7 +152,7 @@ pub fn run(op: &str, a: &[&str]) -> Vec<String> {
         "aead_dec" => {
             let (key, nonce, aad, ct, tag) = (expand(a[1]), expand(a[2]), expand(a[3]), expand(a[4]), expand(a[5]));
             let ol = if a.len() > 6 { usz(a[6]) } else { ct.len() };
-            let mut o = vec![0u8; ol];
+            let mut o = dirty(ol);
             macro_rules! mk { ($r:literal) => { ChaChaPoly1305::<$r>::new(&key, nonce12(&nonce), &aad).decrypt(&ct, &mut o, &tag) }; }
             let ok = by_rounds!(usz(a[0]), mk);
             vec![hex(&o), tf(ok)]
@@ -164,7 +164,7 @@ pub fn run(op: &str, a: &[&str]) -> Vec<String> {
             let mut c = ChaChaPoly1305::<20>::new(&key, nonce12(&nonce), &aad);
             for which in &a[4..6] {
                 let cont = step(&mut out, || {
-                    let mut o = vec![0u8; d.len()];
+                    let mut o = dirty(d.len());
                     let mut t = [0u8; 16];
                     if *which == "e" {
                         c.encrypt(&d, &mut o, &mut t);
